@@ -1,11 +1,132 @@
-//! C19 — not built yet (see DESIGN.md §5 C19).
+//! C19 — SQL dump save/load round-trips table contents (DESIGN.md §5 C19).
+//!
+//! Space: (A) the single-column space of C18 (every supported type × NULL/NOT NULL × boundary
+//! values, alone and together), (B) the multi-column schemas × index menu × DML histories ≤ L,
+//! (C) ALL strings of length ≤ n over Σ = {a ' " \ ; - newline space} as a VARCHAR value.
+//! Each database is written with `save_sql_dump` and read back with `load_sql_dump`.
+//! Oracle (what the property states): same tables, same columns (name, type, nullability), same
+//! row bags (floats bit-wise). Index definitions and query results are C18's business.
 
-pub fn run(_tier: &str) -> i32 {
-    eprintln!("MACHINERY-ERROR C19 is not built yet");
-    2
+use serde_json::json;
+
+use crate::common::*;
+use crate::roundtrip::{self, Case, Kind, CONTENTS};
+use crate::spaces;
+use vcore::report::Report;
+
+pub const SIGMA: [char; 8] = ['a', '\'', '"', '\\', ';', '-', '\n', ' '];
+
+/// All strings over SIGMA of length exactly `len`.
+pub fn strings_of_len(len: usize) -> Vec<String> {
+    vcore::util::sequences(SIGMA.len(), len).into_iter().map(|ix| ix.into_iter().map(|i| SIGMA[i]).collect()).collect()
 }
 
-pub fn replay(_case: &serde_json::Value) -> i32 {
-    eprintln!("MACHINERY-ERROR C19 is not built yet");
-    2
+fn sym_name(c: char) -> &'static str {
+    match c {
+        'a' => "a",
+        '\'' => "quote",
+        '"' => "dquote",
+        '\\' => "backslash",
+        ';' => "semicolon",
+        '-' => "dash",
+        '\n' => "newline",
+        ' ' => "space",
+        _ => "?",
+    }
+}
+
+/// Signature of a string value, from the input only: which symbols it contains, and the
+/// positional features the dump reader is sensitive to.
+pub fn string_sig(s: &str) -> Vec<(String, String)> {
+    let mut syms: Vec<&str> = SIGMA.iter().filter(|c| **c != 'a' && s.contains(**c)).map(|c| sym_name(*c)).collect();
+    syms.dedup();
+    let mut pos: Vec<&str> = vec![];
+    if s.lines().any(|l| l.trim().starts_with("--")) {
+        pos.push("line_starts_with_dashes");
+    }
+    if s.lines().any(|l| l.trim().is_empty()) && s.contains('\n') {
+        pos.push("blank_line");
+    }
+    if s.ends_with('\\') {
+        pos.push("ends_with_backslash");
+    }
+    if s.contains("\\'") {
+        pos.push("backslash_before_quote");
+    }
+    if s.starts_with(' ') || s.ends_with(' ') || s.starts_with('\n') || s.ends_with('\n') {
+        pos.push("outer_whitespace");
+    }
+    vec![("symbols".into(), if syms.is_empty() { "none".into() } else { syms.join("+") }), ("position".into(), if pos.is_empty() { "none".into() } else { pos.join("+") })]
+}
+
+pub fn string_cases(maxlen: usize) -> Vec<Case> {
+    let mut out = vec![];
+    for l in 0..=maxlen {
+        for s in strings_of_len(l) {
+            out.push(Case {
+                sig: string_sig(&s),
+                steps: vec![
+                    (Kind::Must, Step::Sql("CREATE TABLE t (id INT, s VARCHAR)".into())),
+                    (Kind::Must, Step::Ins("t".into(), vec![vec![V::Int(1), V::Str(s)], vec![V::Int(2), V::s("z")]])),
+                ],
+                fmts: vec![Fmt::Sql],
+            });
+        }
+    }
+    out
+}
+
+pub fn run(tier: &str) -> i32 {
+    let mut rep = Report::new("C19", tier, "exploration");
+    let quick = rep.quick();
+    let depth = if quick { 1 } else { 3 };
+    let n = if quick { 4 } else { 6 };
+    let a = crate::c18::single_cases(&[Fmt::Sql]);
+    let t = crate::c18::together_cases(&[Fmt::Sql]);
+    let b = crate::c18::multi_cases(&[Fmt::Sql], depth);
+    let s = string_cases(n);
+    let (na, nt, nb, ns) = (a.len(), t.len(), b.len(), s.len());
+    let mut rts = 0;
+    rts += roundtrip::drive(&mut rep, &a, CONTENTS, "single_column", false);
+    rts += roundtrip::drive(&mut rep, &t, CONTENTS, "single_column_all_values", false);
+    rts += roundtrip::drive(&mut rep, &b, CONTENTS, "multi_column_histories", true);
+    rts += roundtrip::drive(&mut rep, &s, CONTENTS, "strings", false);
+    let groups = ["single_column", "single_column_all_values", "multi_column_histories", "strings"];
+    let states: u64 = groups.iter().map(|g| rep.coverage.get(&format!("{}.distinct_states", g)).and_then(|v| v.as_u64()).unwrap_or(0)).sum();
+    let mut samples = vec![];
+    for g in groups {
+        if let Some(x) = rep.coverage.get(&format!("{}.samples", g)).and_then(|v| v.as_array()) {
+            samples.extend(x.iter().take(2).cloned());
+        }
+    }
+    if samples.is_empty() {
+        samples.push(json!({"note": "no case round-tripped identically"}));
+    }
+    rep.set("evaluations", json!(rts));
+    rep.set("distinct_nontrivial", json!(states));
+    rep.set("samples", json!(samples));
+    rep.set("exhaustive", json!(true));
+    rep.set(
+        "rule",
+        json!("every database of the enumerated space is written with save_sql_dump and read with load_sql_dump; tables, columns (name, type, nullability) and row bags (floats bit-wise) must be equal"),
+    );
+    rep.set(
+        "bounds",
+        json!({
+            "single_column_cases": na, "all_values_cases": nt, "multi_column_cases": nb, "string_cases": ns,
+            "string_alphabet": SIGMA.iter().map(|c| sym_name(*c)).collect::<Vec<_>>(), "string_max_len": n,
+            "history_depth": depth,
+            "column_types": spaces::col_types().iter().map(|t| t.sql).collect::<Vec<_>>(),
+        }),
+    );
+    println!("C19 {}: {} single-column + {} all-values + {} history + {} string cases, {} round trips, {} distinct database states", tier, na, nt, nb, ns, rts, states);
+    for g in groups {
+        println!("  {}: {}", g, rep.coverage.get(&format!("{}.counters", g)).cloned().unwrap_or_default());
+    }
+    cleanup();
+    rep.finish()
+}
+
+pub fn replay(case: &serde_json::Value) -> i32 {
+    roundtrip::replay(case, CONTENTS)
 }
